@@ -20,7 +20,9 @@ BLANKS = " \t"
 LETTERS = "abzAZ"
 DIGITS = "019"
 META = ":#,-.;=<>()[]|!~+*?\\/@\"'$%&_`^{}"
-NONASCII = "éß漢\U0001d4b3"
+# incl. text that is NOT in a Unicode normal form: a combining accent (after any letter),
+# ANGSTROM SIGN, OHM SIGN, a Hangul jamo pair - values are kept as written, never normalised
+NONASCII = "éß漢\U0001d4b3\u0301\u212b\u2126\u1100\u1161"
 POOL = LETTERS + DIGITS + META + NONASCII          # non-blank TEXT characters
 
 NAME_CHARS = "".join(chr(c) for c in range(33, 127) if chr(c) != ":")
@@ -102,10 +104,10 @@ def nonblank_text(draw):
 
 SPECIAL_FIRST = ["", " ", "\t", ":", ": x", "#", "#c", "# c: d", "B: c", "a:b", "-----BEGIN PGP SIGNED MESSAGE-----",
                  "-", ".", "x\t", "x \t", "\tx", "  x  ", "1.0-1", "foo (>= 1.0), bar [amd64] | baz <!nocheck>",
-                 "é", "漢\U0001d4b3 ß"]
+                 "é", "漢\U0001d4b3 ß", "e\u0301 A\u030a \u212b \u2126 \u1100\u1161"]
 SPECIAL_CONT = [" .", " #x", "\t#x", " B: x", "\tX: y", " -----BEGIN PGP SIGNED MESSAGE-----",
                 " -----END PGP SIGNATURE-----", " :", " a:", "  x", " x\t", " x \t ", "\t\tx", " \tx",
-                " é:漢", " - item"]
+                " é:漢", " - item", " n\u0303o \u212b"]
 
 first_line = st.one_of(
     st.sampled_from(SPECIAL_FIRST),
